@@ -5,7 +5,7 @@ import ZChain.Model.Genesis
 `init <feeOn 0|1> <id:bal:nonce>*`   |   `genesis <scId>:<tokens>[/<clientId>:<tokens>]* …` (mustInitGBState)
 `txn <send|data|sc|invalid> <sender> <to> <toValid 0|1> <value> <fee> <nonce> <res>`
    res = `-` | `int` | `chg` | `chg|<ops>` | `ok` | `ok|<ops>`; ops separated by `;`:
-   `t,src,dst,amt` (transfer; a destination id may carry the suffix `u` = upper-case spelling) `s,src,dst,amt` (signed transfer) `w,k,v` (write) `d,k` (delete)
+   `t,src,dst,amt` (transfer; a destination id may carry the suffix `u` = upper-case spelling) `s,src,dst,amt` (signed transfer) `w,k,v` (write) `d,k` (delete) `pu,i,v` / `pr,i` (put / remove item i of a partitions list = storage key 100+i)
 answer: `<status> a=<id:bal:nonce,…> s=<k:v,…> tot=<sum> x=0` (every account that has a leaf, both sorted). -/
 namespace ZChain.Drv.LEDGER
 open ZChain.Ledger
@@ -48,9 +48,11 @@ structure Ops where
   tr : List Transfer := []
   sg : List Transfer := []
 
-/-- an id token: `7` (canonical spelling) or `7u` (upper-case spelling of the same id). -/
+/-- an id token: `7` (canonical spelling), `7u` (upper-case spelling of the same id) or `7p` (only the leading
+hex letter upper-cased: a spelling that the trie resolves to the SAME leaf, since children are addressed
+case-insensitively; `transferAmount` refuses it like every other non-lower-case recipient). -/
 def parseId (w : String) : Option (Nat × Bool) :=
-  if w.endsWith "u" then ((w.dropEnd 1).toString.toNat?).map (fun n => (n, false))
+  if w.endsWith "u" || w.endsWith "p" then ((w.dropEnd 1).toString.toNat?).map (fun n => (n, false))
   else (w.toNat?).map (fun n => (n, true))
 
 def parseOp (o : Ops) (w : String) : Option Ops :=
@@ -66,6 +68,14 @@ def parseOp (o : Ops) (w : String) : Option Ops :=
     | _, _ => none
   | ["d", k] => match k.toNat? with
     | some k => some { o with ws := o.ws ++ [.del k] }
+    | none => none
+  -- `pu,i,v` / `pr,i`: put / remove item `i` of a `smartcontract/partitions` list kept by the scripted contract
+  -- (update-in-place when present, add otherwise): to the engine these are writes to the storage keys `100 + i`
+  | ["pu", k, v] => match k.toNat?, v.toNat? with
+    | some k, some v => some { o with ws := o.ws ++ [.put (100 + k) v] }
+    | _, _ => none
+  | ["pr", k] => match k.toNat? with
+    | some k => some { o with ws := o.ws ++ [.del (100 + k)] }
     | none => none
   | _ => none
 
